@@ -74,7 +74,7 @@ func (m *Machine) binop(fr *frame, op token.Token, a, b Value, pos token.Pos) Va
 			if op == token.QUO {
 				return IntV{sym.IDiv(x.P, y.P)}
 			}
-			panic(Unsupported{"symbolic integer remainder"})
+			return IntV{sym.IMod(x.P, y.P)}
 		case token.EQL:
 			return boolOf(sym.IntCond(sym.CEq(x.P, y.P)))
 		case token.NEQ:
@@ -541,6 +541,36 @@ func (m *Machine) builtin(fr *frame, b *ssa.Builtin, args []Value, call *ssa.Cal
 		return IntC(int64(n))
 	case "print", "println":
 		return nil
+	case "min", "max":
+		acc := args[0]
+		for _, a := range args[1:] {
+			switch x := acc.(type) {
+			case FloatV:
+				acc = FloatV{sym.FnE(b.Name(), x.E, a.(FloatV).E)}
+			case IntV:
+				y := a.(IntV)
+				cx, ok1 := x.P.Const()
+				cy, ok2 := y.P.Const()
+				if !ok1 || !ok2 {
+					// decide by branching on the order
+					less := m.Branch(sym.IntCond(sym.CLt(x.P, y.P)))
+					if (b.Name() == "min") == less {
+						acc = x
+					} else {
+						acc = y
+					}
+					continue
+				}
+				if (b.Name() == "min") == (cx < cy) {
+					acc = x
+				} else {
+					acc = y
+				}
+			default:
+				panic(Unsupported{"builtin " + b.Name() + " on " + Describe(acc)})
+			}
+		}
+		return acc
 	}
 	panic(Unsupported{"builtin " + b.Name()})
 }
@@ -592,6 +622,10 @@ func (m *Machine) builtinExternal(fn *ssa.Function, args []Value) (Value, bool) 
 		return FloatV{sym.FnE("max", args[0].(FloatV).E, args[1].(FloatV).E)}, true
 	case "math.Min":
 		return FloatV{sym.FnE("min", args[0].(FloatV).E, args[1].(FloatV).E)}, true
+	case "(*sync.Mutex).Lock", "(*sync.Mutex).Unlock", "(*sync.RWMutex).Lock", "(*sync.RWMutex).Unlock",
+		"(*sync.RWMutex).RLock", "(*sync.RWMutex).RUnlock", "(*sync.WaitGroup).Add", "(*sync.WaitGroup).Done", "(*sync.WaitGroup).Wait":
+		// single abstract thread: locks are no-ops for the value semantics analysed here
+		return nil, true
 	case "math.Inf":
 		s := args[0].(IntV)
 		if c, ok := s.P.Const(); ok {
@@ -599,6 +633,22 @@ func (m *Machine) builtinExternal(fn *ssa.Function, args []Value) (Value, bool) 
 				return FloatC(math.Inf(1)), true
 			}
 			return FloatC(math.Inf(-1)), true
+		}
+	}
+	// any other function of package math over floats: an uninterpreted function symbol (consistent on both sides)
+	if fn.Pkg != nil && fn.Pkg.Pkg.Path() == "math" && len(args) >= 1 && fn.Signature.Results().Len() == 1 {
+		if _, isF := fn.Signature.Results().At(0).Type().Underlying().(*types.Basic); isF {
+			var es []sym.Expr
+			for _, a := range args {
+				f, ok := a.(FloatV)
+				if !ok {
+					return nil, false
+				}
+				es = append(es, f.E)
+			}
+			if b := fn.Signature.Results().At(0).Type().Underlying().(*types.Basic); b.Info()&types.IsFloat != 0 {
+				return FloatV{sym.FnE("math_"+fn.Name(), es...)}, true
+			}
 		}
 	}
 	return nil, false
